@@ -91,6 +91,14 @@ def extract():
     put('poll_ms', int(ms[0]) if ms and len(set(ms)) == 1 else None)
     m = re.search(r'Duration::from_millis\((\d+)\),\s*raw_printer', lib)
     put('refresh_ms', m and int(m.group(1)))
+    # the one-line placeholder frame of PrintAggregateAsRows::print (live terminal, -o logfmt / -o format=)
+    body = fn_body(printer, r'impl<T: RowPrinter> AggregatePrinter for PrintAggregateAsRows<T> \{')
+    m = re.search(r'fn print\(&mut self[^{]*\{\s*(?://[^\n]*\n\s*)*"((?:[^"\\]|\\.)*)"\.to_string\(\)', body or '')
+    put('agg_placeholder', [ord(c) for c in bytes(m.group(1), 'utf8').decode('unicode_escape')] if m else None)
+    # what resize_widths_to_fit divides the remaining width by
+    body = fn_body(printer, r'fn resize_widths_to_fit\(')
+    m = re.search(r'remaining as f64 / \((.*?) - i\) as f64', body or '')
+    put('resize_divisor', m and m.group(1).strip())
     m = re.search(r'self\.reset_sequence = "((?:\\x1b\[[0-9A-Z]+)+)"\.repeat\(num_lines\)(?: \+ "((?:\\x1b\[[0-9A-Z]+)+)")?;', render)
     if m:
         unit = re.findall(r'\\x1b\[([0-9]+[A-Z])', m.group(1))
@@ -197,6 +205,10 @@ def render(facts):
     for k in ('reset_unit', 'reset_tail', 'pct_tags', 'avg_tags', 'valid_aggregates', 'valid_inline', 'func_names'):
         if k in facts:
             emit(k, 'list string', coq_list(coq_str(x) for x in facts[k]))
+    if 'agg_placeholder' in facts:
+        emit('agg_placeholder', 'list N', coq_list('%d%%N' % c for c in facts['agg_placeholder']))
+    if 'resize_divisor' in facts:
+        emit('resize_divisor', 'string', coq_str(facts['resize_divisor']))
     if 'ellipsis' in facts:
         emit('ellipsis', 'list N', coq_list('%d%%N' % c for c in facts['ellipsis']))
     if 'default_names' in facts:
